@@ -30,7 +30,9 @@ DRIVER = 'Driver/C16.lean'
 REQUIRED_THEOREMS = ['CfVerif.C16.' + t for t in (
     'align_applies_one_rigid_map', 'align_returns', 'align_preserves_distances', 'align_preserves_relative_orientation',
     'residual_zero_iff_aligned', 'deflip_correct', 'align_exact_of_zero_residual', 'x_samples_on_positive_axis',
-    'scale_uniform', 'scale_fixed_point_exact', 'scale_diagonals_exact', 'intersection_on_plane_and_ray')]
+    'aligned_unique', 'align_recovers_true_alignment',
+    'scale_uniform', 'scale_fixed_point_exact', 'scale_diagonals_exact', 'intersection_on_plane_and_ray',
+    'scale_inputs_unmodified', 'scale_heap_refines_value', 'gen_pose_scale_rebinds', 'gen_aligner_pure')]
 TRUSTED = ['harness/corr/c16.py extractor + correspondence',
            'real numbers vs IEEE binary64: the theorems are about the model over R; the same definitions run over Float agree with numpy to 1e-11',
            'scipy Rotation.from_rotvec(v).as_matrix() = Rodrigues rotation (model: rotVecToMat; scipy uses a Taylor series of sin(t/2)/t below 1e-3 rad)',
